@@ -5,10 +5,14 @@
    all interleavings of the reader thread (VideoReader.run / LabelsReader.run),
    the consumer loop (Predictor._predict_generator) and the bounded queue
    between them.  Every theorem below quantifies over ALL configurations
-   c = (start, end, capacity, batch size, fault position)
+   c = (start, end, capacity, batch size, fault position, source)
      - any start / end, including empty and inverted ranges,
      - any capacity (0 = unbounded, as in queue.Queue),
      - any fault position (or none),
+     - any source `src c : nat -> payload` (size of frame i, index of its video): a queue item is
+       `Frame i p`, the reader builds p from the frame it has just read, and "each with its own index and
+       original size" is the theorem that every item taken / queued is `fr c i = Frame i (src c i)`
+       (c13_invariant_items, c13_items_carry_own_payload, c13_final_state; round 4),
    and over ALL reachable states, i.e. all schedules, with no size bound.  The
    only hypothesis that appears is 0 < batch c (batch size 0 is outside the
    property: ex_batch0_livelock shows that the consumer then spins forever).
@@ -17,7 +21,12 @@
    (harness/props/c13.py): the control skeleton of the three functions is
    re-extracted from the source and compared with `modelled_*` (Gen/C13_Skel.v,
    Gen/C13_SkelCheck.v), and traces of the real threads under prescribed
-   schedules are replayed through `accepts`. *)
+   schedules are replayed through `accepts`.
+
+   What is NOT a theorem here: the payloads of the YIELDED batches (orig_size / video_idx / instances the
+   consumer hands to the inference model) are compared by the harness's oracle only; `yielded` holds
+   indices.  Statements whose name ends in _def and the request-model statements (c13_video_..., c13_labels_...)
+   restate definitions; they are labelled where they occur. *)
 From Coq Require Import List Arith Bool Wf_nat.
 Import ListNotations.
 From SV Require Import C13.Stream C13.Lemmas C13.Poll C13.PollLemmas.
@@ -60,7 +69,7 @@ Print Assumptions final_def.
 Lemma final_ok_def : forall c s,
   final_ok c s =
   (final s /\ q s = [] /\
-   taken s = map Frame (delivered c) ++ [Sentinel] /\
+   taken s = map (fr c) (delivered c) ++ [Sentinel] /\
    concat (yielded s) = delivered c /\
    yielded s = chunks (batch c) (delivered c)).
 Proof. exact final_ok_unfold. Qed.
@@ -74,6 +83,10 @@ Example ex_delivered_and_chunks :
   chunks 2 [0;1;2;3;4] = [[0;1];[2;3];[4]] /\
   chunks 3 [] = [].
 Proof. exact ex_delivered. Qed.
+
+Lemma fr_def : forall c i, fr c i = Frame i (src c i).
+Proof. reflexivity. Qed.
+Print Assumptions fr_def.
 
 (* --- (a) safety: no loss, no duplication, no reordering, one marker --------- *)
 
@@ -89,12 +102,44 @@ Theorem c13_invariant : forall c s, reach c s ->
 Proof. exact invariant_reach. Qed.
 Print Assumptions c13_invariant.
 
+(* the same on the level of ITEMS, payloads included: what the consumer took, what is queued, what is in
+   flight or unread and the marker not yet put are, in this order, the specified items (each frame with
+   the size / video index of its own index) followed by one marker *)
+Theorem c13_invariant_items : forall c s, reach c s ->
+  taken s ++ q s ++ map (fr c) (in_flight s ++ unread c s) ++ (match pp s with PDone => [] | _ => [Sentinel] end)
+  = map (fr c) (delivered c) ++ [Sentinel].
+Proof. exact invariant_items. Qed.
+Print Assumptions c13_invariant_items.
+
+(* "each with its own index and original size": in every reachable state, every frame item taken by the
+   consumer, waiting in the queue or about to be put carries the payload the source gives for its index *)
+Theorem c13_items_carry_own_payload : forall c s i p, reach c s ->
+  (In (Frame i p) (taken s ++ q s) \/ pp s = PPut i p) -> p = src c i.
+Proof. exact reach_items_own. Qed.
+Print Assumptions c13_items_carry_own_payload.
+
+(* the trace checker compares the payloads seen at put and get with the source: a size computed once for
+   all frames, a wrong video index, an item that changed between put and get are rejected *)
+Example ex_payloads_checked :
+  accepts ex_pcfg [EvStart; EvReadOk 1; EvPut 1 (3,5,1); EvReadOk 2; EvGet 1 (3,5,1); EvPut 2 (4,5,0);
+                   EvReadFail 3; EvGet 2 (4,5,0); EvYield [1;2]; EvPutSent; EvGetSent; EvJoin] = true /\
+  accepts ex_pcfg [EvStart; EvReadOk 1; EvPut 1 (3,5,1); EvReadOk 2; EvGet 1 (3,5,1); EvPut 2 (3,5,0);
+                   EvReadFail 3; EvGet 2 (3,5,0); EvYield [1;2]; EvPutSent; EvGetSent; EvJoin] = false /\
+  accepts ex_pcfg [EvStart; EvReadOk 1; EvPut 1 (3,5,0); EvReadOk 2; EvGet 1 (3,5,0); EvPut 2 (4,5,0);
+                   EvReadFail 3; EvGet 2 (4,5,0); EvYield [1;2]; EvPutSent; EvGetSent; EvJoin] = false /\
+  accepts ex_pcfg [EvStart; EvReadOk 1; EvPut 1 (3,5,1); EvReadOk 2; EvPut 2 (4,5,0); EvGet 1 (4,5,0);
+                   EvReadFail 3; EvGet 2 (4,5,0); EvYield [1;2]; EvPutSent; EvGetSent; EvJoin] = false.
+Proof. exact ex_payload_traces. Qed.
+
 (* nothing is ever queued behind the marker: when the consumer has seen it,
    the reader has ended and the queue is empty *)
 Theorem c13_nothing_behind_marker : forall c s, reach c s -> done_ s = true ->
   pp s = PDone /\ q s = [].
 Proof. exact nothing_behind_marker. Qed.
 Print Assumptions c13_nothing_behind_marker.
+
+Example ex_marker_seen : exists s, reach ex_cfg s /\ done_ s = true /\ pp s = PDone /\ q s = [].
+Proof. exact ex_marker_seen_state. Qed.
 
 (* --- (b) deadlock freedom ---------------------------------------------------- *)
 
@@ -105,6 +150,7 @@ Theorem c13_deadlock_free : forall c s, reach c s -> ~ final s -> exists s', ste
 Proof. exact deadlock_free. Qed.
 Print Assumptions c13_deadlock_free.
 
+(* (the contrapositive of c13_deadlock_free, kept for the reading "every maximal run ends in the final state") *)
 Theorem c13_stuck_is_final : forall c s, reach c s -> (forall s', ~ step c s s') -> final s.
 Proof. exact stuck_is_final. Qed.
 Print Assumptions c13_stuck_is_final.
@@ -163,7 +209,7 @@ Print Assumptions c13_accepts_sound.
    and its yield events are exactly the specified batches *)
 Theorem c13_accepts_spec : forall c tr, 0 < batch c -> accepts c tr = true ->
   yields_of tr = chunks (batch c) (delivered c) /\
-  gets_of tr = map Frame (delivered c) ++ [Sentinel].
+  gets_of tr = map (fr c) (delivered c) ++ [Sentinel].
 Proof. exact accepts_spec. Qed.
 Print Assumptions c13_accepts_spec.
 
@@ -176,25 +222,27 @@ Print Assumptions c13_accepts_exact.
 
 Example ex_accepts :
   accepts (mkCfg 1 4 2 2 (Some 3))
-    [EvStart; EvReadOk 1; EvPut 1; EvReadOk 2; EvGet 1; EvPut 2; EvReadFail 3; EvGet 2;
+    [EvStart; EvReadOk 1; EvPut 1 pl0; EvReadOk 2; EvGet 1 pl0; EvPut 2 pl0; EvReadFail 3; EvGet 2 pl0;
      EvYield [1;2]; EvPutSent; EvGetSent; EvJoin] = true.
 Proof. exact ex_trace_accepted. Qed.
 
 (* lost frame / repeated frame / stream never closed / consumer stops early *)
 Example ex_rejects :
-  accepts ex_cfg [EvStart; EvReadOk 1; EvPut 1; EvReadOk 2; EvGet 1; EvReadFail 3; EvPutSent;
+  accepts ex_cfg [EvStart; EvReadOk 1; EvPut 1 pl0; EvReadOk 2; EvGet 1 pl0; EvReadFail 3; EvPutSent;
                   EvGetSent; EvYield [1]; EvJoin] = false /\
-  accepts ex_cfg [EvStart; EvReadOk 1; EvPut 1; EvGet 1; EvReadOk 1; EvPut 1; EvGet 1] = false /\
-  accepts ex_cfg [EvStart; EvReadOk 1; EvPut 1; EvReadOk 2; EvGet 1; EvPut 2; EvReadFail 3; EvGet 2;
+  accepts ex_cfg [EvStart; EvReadOk 1; EvPut 1 pl0; EvGet 1 pl0; EvReadOk 1; EvPut 1 pl0; EvGet 1 pl0] = false /\
+  accepts ex_cfg [EvStart; EvReadOk 1; EvPut 1 pl0; EvReadOk 2; EvGet 1 pl0; EvPut 2 pl0; EvReadFail 3; EvGet 2 pl0;
                   EvYield [1;2]] = false /\
   accepts (mkCfg 0 2 1 2 None)
-          [EvStart; EvReadOk 0; EvPut 0; EvGet 0; EvReadOk 1; EvPut 1; EvGet 1; EvYield [0;1]; EvJoin] = false.
+          [EvStart; EvReadOk 0; EvPut 0 pl0; EvGet 0 pl0; EvReadOk 1; EvPut 1 pl0; EvGet 1 pl0; EvYield [0;1]; EvJoin] = false.
 Proof. exact ex_bad_traces_rejected. Qed.
 
 (* --- the static tie ---------------------------------------------------------------- *)
 
 (* the per-run obligation `skeletons_match generated` (Gen/C13_SkelCheck.v) is
-   satisfiable: it holds of the skeletons the model was written from *)
+   satisfiable: it holds of the skeletons the model was written from.  It is syntactic equality with
+   constants; `sk` has no semantics and the skeleton -> rule correspondence is documented in Stream.v,
+   not proved (trusted, with the translator). *)
 Example ex_skeletons_match :
   skeletons_match (mkSkeletons modelled_video_run modelled_labels_run true modelled_consumer true).
 Proof. exact ex_skeletons_match_satisfiable. Qed.
@@ -202,7 +250,13 @@ Proof. exact ex_skeletons_match_satisfiable. Qed.
 (* ================================================================================== *)
 (* --- widened model (C13/Poll.v): timed get, polling consumers, reader construction --- *)
 
-(* `xstep c m` = Stream.lstep plus, for m = Polling, the rule "get(timeout) raises Empty when the
+(* SCOPE (review round 4, finding 5): /repo has ONE consumer, the blocking get of
+   Predictor._predict_generator; it is m = Blocking, where xstep = lstep and xaccepts = accepts
+   (c13_xaccepts_blocking), so the theorems of the first half are the ones that cover C13 for /repo.
+   Polling and GiveUp are harness-side wrappers of get(); the theorems about them add no coverage of
+   the property for /repo: they make the checker exact on, and able to refute, seeded variants of the
+   consumer (C13_m4).
+   `xstep c m` = Stream.lstep plus, for m = Polling, the rule "get(timeout) raises Empty when the
    queue is empty" (the consumer retries), and for m = GiveUp the time-out followed by an
    `is_alive()` look at the reader thread.  `waits_for_marker m` holds for Blocking and Polling.
    Fairness: a schedule may let the timed get expire for ever while the reader is starved; the
@@ -274,6 +328,11 @@ Theorem c13_poll_fair_run_length : forall c m ls x, waits_for_marker m = true ->
 Proof. exact poll_fair_run_length. Qed.
 Print Assumptions c13_poll_fair_run_length.
 
+Example ex_fair_path : exists ls x,
+  xpath giveup_cfg Polling (xinit giveup_cfg) ls x /\ no_two_timeouts ls = true /\
+  In (Some XTimeout) ls /\ length ls = 2.
+Proof. exact ex_fair_path_with_timeout. Qed.
+
 (* the final state is right whenever it is reached, *)
 Theorem c13_poll_final_state : forall c m x, waits_for_marker m = true -> 0 < batch c ->
   xreach c m x -> xfinal x -> final_ok c (base x).
@@ -298,7 +357,7 @@ Print Assumptions c13_xaccepts_sound.
 Theorem c13_xaccepts_spec : forall c m tr, waits_for_marker m = true -> 0 < batch c ->
   xaccepts c m tr = true ->
   yields_of (base_events tr) = chunks (batch c) (delivered c) /\
-  gets_of (base_events tr) = map Frame (delivered c) ++ [Sentinel].
+  gets_of (base_events tr) = map (fr c) (delivered c) ++ [Sentinel].
 Proof. exact xaccepts_spec. Qed.
 Print Assumptions c13_xaccepts_spec.
 
@@ -314,7 +373,7 @@ Print Assumptions c13_xaccepts_exact_polling.
 
 Example ex_polling_trace :
   xaccepts giveup_cfg Polling
-    [XEv EvStart; XTimeout; XEv (EvReadOk 0); XTimeout; XEv (EvPut 0); XEv (EvGet 0); XEv (EvYield [0]);
+    [XEv EvStart; XTimeout; XEv (EvReadOk 0); XTimeout; XEv (EvPut 0 pl0); XEv (EvGet 0 pl0); XEv (EvYield [0]);
      XTimeout; XEv EvPutSent; XEv EvGetSent; XEv EvJoin] = true /\
   xaccepts giveup_cfg Blocking polling_trace = false.
 Proof. exact polling_trace_accepted. Qed.
@@ -326,7 +385,7 @@ Proof. exact polling_trace_accepted. Qed.
    frame 0 and the real marker still in the queue and nothing yielded. *)
 Theorem c13_giveup_loses_frames : exists c x,
   0 < batch c /\ fault c = None /\ xreach c GiveUp x /\ xfinal x /\
-  delivered c = [0] /\ yielded (base x) = [] /\ q (base x) = [Frame 0; Sentinel].
+  delivered c = [0] /\ yielded (base x) = [] /\ q (base x) = [Frame 0 pl0; Sentinel].
 Proof. exact giveup_loses_frames. Qed.
 Print Assumptions c13_giveup_loses_frames.
 
@@ -339,41 +398,113 @@ Print Assumptions c13_giveup_final_state_refuted.
 (* why giving up is never right with this reader: whenever the reader thread is dead and the consumer
    is still collecting, the marker is in the queue, so a timed get cannot time out after the reader's
    death.  `is_alive() = False` seen after a time-out therefore always means that the queue was filled
-   in between (the race above); a consumer that samples is_alive() BEFORE its timed get never gives up. *)
+   in between (the race above).
+   REMARK (no theorem, review round 4 finding 4): it follows informally that a consumer sampling
+   is_alive() BEFORE its timed get would never see a reason to give up; there is no `cmode` for such a
+   consumer and nothing is proved about it. *)
 Theorem c13_dead_reader_marker_queued : forall c s k acc,
   reach c s -> pp s = PDone -> cc s = CCollect k acc -> sentinels (q s) = 1 /\ q s <> [].
 Proof. exact dead_reader_marker_queued. Qed.
 Print Assumptions c13_dead_reader_marker_queued.
 
+Example ex_dead_reader :
+  reach giveup_cfg (base giveup_mid) /\ pp (base giveup_mid) = PDone /\
+  cc (base giveup_mid) = CCollect 1 [] /\ sentinels (q (base giveup_mid)) = 1.
+Proof. exact ex_dead_reader_collecting. Qed.
+
+(* bridge between the two systems (review round 4, finding 3): a state of the widened system, in ANY
+   mode, is a reachable state of Stream.v until the consumer has seen or fabricated a marker; after a
+   fabrication (GiveUp only) it is not in general (ex_giveup_bridge), but then the consumer has left
+   its collect loop for good *)
+Theorem c13_xreach_is_stream_reach_until_done : forall c m x,
+  xreach c m x -> done_ (base x) = false -> reach c (base x).
+Proof. exact xreach_not_done_reach. Qed.
+Print Assumptions c13_xreach_is_stream_reach_until_done.
+
+Theorem c13_xreach_base : forall c m x, xreach c m x ->
+  reach c (base x) \/
+  (done_ (base x) = true /\ match cc (base x) with CProcess _ | CJoin | CFinished => True | _ => False end).
+Proof. exact xreach_base. Qed.
+Print Assumptions c13_xreach_base.
+
+(* stated on the states of the widened system itself (all modes, GiveUp included; until round 4 the
+   hypothesis was Stream-reachability of the base state, which nothing provided for GiveUp) *)
 Theorem c13_no_timeout_after_death : forall c m x x',
-  reach c (base x) -> pp (base x) = PDone -> ~ xstep c m (Some XTimeout) x x'.
+  xreach c m x -> pp (base x) = PDone -> ~ xstep c m (Some XTimeout) x x'.
 Proof. exact no_timeout_after_death. Qed.
 Print Assumptions c13_no_timeout_after_death.
 
+(* the hypotheses are met in mode GiveUp (the race state: reader dead, consumer between time-out and
+   is_alive(), frame and marker queued); the end state of the race is xreach but not Stream-reachable *)
+Example ex_giveup_bridge :
+  xreach giveup_cfg GiveUp giveup_mid /\ pp (base giveup_mid) = PDone /\ reach giveup_cfg (base giveup_mid) /\
+  (exists x', xstep giveup_cfg GiveUp (Some (XAlive false)) giveup_mid x') /\
+  xreach giveup_cfg GiveUp giveup_end /\ ~ reach giveup_cfg (base giveup_end).
+Proof. exact giveup_mid_reachable. Qed.
+
 Example ex_giveup_trace :
   xaccepts giveup_cfg GiveUp
-    [XEv EvStart; XTimeout; XEv (EvReadOk 0); XEv (EvPut 0); XEv EvPutSent; XAlive false; XEv EvJoin] = true /\
+    [XEv EvStart; XTimeout; XEv (EvReadOk 0); XEv (EvPut 0 pl0); XEv EvPutSent; XAlive false; XEv EvJoin] = true /\
   xaccepts giveup_cfg Polling giveup_trace = false.
 Proof. split; [exact giveup_trace_accepted | exact giveup_trace_not_polling]. Qed.
 
 (* --- how the readers are constructed ------------------------------------------------------ *)
 
 (* VideoReader(video, buffer, start_idx, end_idx) / VideoReader.from_filename: None means 0 resp.
-   the length of the video; 0 means 0 *)
+   the length of the video; 0 means 0.  The reader iterates over range(start, end) whatever the length
+   of the video; video[idx] with idx >= len(video) raises IndexError, which is a read failure like any
+   other (caught, earlier frames delivered, marker put): a request that runs past the end of the video
+   has a derived fault at the first index of the range that does not exist (review round 4, finding 1:
+   until then `video_cfg` ignored the length once end_idx was given, and c13_video_request_delivered /
+   c13_video_total_len misdescribed the code for end_idx > len(video); both statements are corrected
+   here).  Decision: this is NOT a violation of "delivers every frame of the requested range": the
+   frames of the range that exist are delivered, the first non-existing one is a failed read, the stream
+   is closed (second sentence of the property).  total_len() over-reporting is an observation.
+   These statements restate the request MODEL; that the code behaves like `video_cfg` is what the
+   harness checks on every run (check_request, FakeVideo bounds-checks like sio.Video, real-video replay). *)
 Lemma video_cfg_def : forall r,
-  video_cfg r = mkCfg (match vr_start r with Some s => s | None => 0 end)
-                      (match vr_end r with Some e => e | None => vr_frames r end)
-                      (vr_cap r) (vr_batch r) (vr_fault r).
+  video_cfg r = mkCfgS (vr_start_ r) (vr_end_ r) (vr_cap r) (vr_batch r) (video_fault r) (vr_src r).
 Proof. exact video_cfg_unfold. Qed.
 Print Assumptions video_cfg_def.
 
+Lemma video_fault_def : forall r,
+  video_fault r =
+  opt_min (match vr_fault r with Some x => if vr_start_ r <=? x then Some x else None | None => None end)
+          (if vr_frames r <? vr_end_ r then Some (Nat.max (vr_start_ r) (vr_frames r)) else None).
+Proof. exact video_fault_unfold. Qed.
+Print Assumptions video_fault_def.
+
+(* delivered = the frames of the requested range that exist in the video and precede the first
+   frame of the range that cannot be decoded *)
 Theorem c13_video_request_delivered : forall r i,
   In i (delivered (video_cfg r)) <->
-  ((match vr_start r with Some s => s | None => 0 end) <= i
-     < (match vr_end r with Some e => e | None => vr_frames r end) /\
-   forall f, vr_fault r = Some f -> (match vr_start r with Some s => s | None => 0 end) <= f -> i < f).
+  (vr_start_ r <= i < vr_end_ r /\ i < vr_frames r /\
+   forall f, vr_fault r = Some f -> vr_start_ r <= f -> i < f).
 Proof. exact video_request_delivered. Qed.
 Print Assumptions c13_video_request_delivered.
+
+(* inside the video the length plays no role (the model of rounds 2-3 is the special case) *)
+Theorem c13_video_within_length : forall r, vr_end_ r <= vr_frames r ->
+  video_fault r = in_range_fault (vr_start_ r) (vr_fault r) /\
+  delivered (video_cfg r) = delivered (mkCfg (vr_start_ r) (vr_end_ r) (vr_cap r) (vr_batch r) (vr_fault r)).
+Proof. exact video_within_length. Qed.
+Print Assumptions c13_video_within_length.
+
+(* past the end: a read fails for sure, and (no undecodable frame among the existing ones) exactly the
+   existing frames of the range are delivered; by c13_every_schedule_ends_ok at `video_cfg r` the
+   marker follows and the consumer stops, on every schedule *)
+Theorem c13_video_overrun : forall r, vr_frames r < vr_end_ r ->
+  (exists g, video_fault r = Some g /\ vr_start_ r <= g <= Nat.max (vr_start_ r) (vr_frames r)) /\
+  ((forall f, vr_fault r = Some f -> vr_start_ r <= f -> vr_frames r <= f) ->
+   delivered (video_cfg r) = seq (vr_start_ r) (vr_frames r - vr_start_ r)).
+Proof. exact video_overrun. Qed.
+Print Assumptions c13_video_overrun.
+
+Theorem c13_video_no_read_fails_iff : forall r,
+  video_fault r = None <->
+  ((forall f, vr_fault r = Some f -> f < vr_start_ r) /\ vr_end_ r <= vr_frames r).
+Proof. exact video_fault_none_iff. Qed.
+Print Assumptions c13_video_no_read_fails_iff.
 
 Theorem c13_video_end_zero_empty : forall r, vr_end r = Some 0 -> delivered (video_cfg r) = [].
 Proof. exact video_end_zero_empty. Qed.
@@ -384,19 +515,32 @@ Theorem c13_video_defaults_whole : forall n cp b,
 Proof. exact video_defaults_whole. Qed.
 Print Assumptions c13_video_defaults_whole.
 
-(* total_len() = end - start: the number of frames delivered when no read fails; negative only
+(* total_len() = end - start: the number of frames delivered when no read fails -- which includes that
+   the range does not run past the end of the video (c13_video_no_read_fails_iff); negative only
    for an inverted range, which delivers nothing *)
-Theorem c13_video_total_len : forall r, vr_fault r = None ->
+Theorem c13_video_total_len : forall r, video_fault r = None ->
   fst (video_total_len r) = length (delivered (video_cfg r)) /\
   (snd (video_total_len r) = 0 \/ delivered (video_cfg r) = []).
 Proof. exact video_total_len_ok. Qed.
 Print Assumptions c13_video_total_len.
 
-(* LabelsReader with instances_key (finding F130): a labelled frame without a non-empty instance
-   makes `np.stack([])` raise inside the reader's try block, so the unrepaired reader handles it
-   like a read failure: that frame and every later one are lost although all of them can be read.
-   `labels_cfg` is the code (lr_fixed = false: as found; true: repaired), `labels_spec_cfg` the
-   property (only read failures end the stream early). *)
+(* observation (outside the property): past the end total_len() over-reports *)
+Theorem c13_video_total_len_overrun : forall r,
+  vr_fault r = None -> vr_start_ r <= vr_frames r -> vr_frames r < vr_end_ r ->
+  length (delivered (video_cfg r)) = vr_frames r - vr_start_ r /\
+  length (delivered (video_cfg r)) < fst (video_total_len r).
+Proof. exact video_total_len_overrun. Qed.
+Print Assumptions c13_video_total_len_overrun.
+
+(* LabelsReader with instances_key (finding F130, FIXED in /repo by commit 061a599): in the pinned tree a
+   labelled frame without a non-empty instance makes `np.stack([])` raise inside the reader's try block,
+   so that reader handles it like a read failure: that frame and every later one are lost although all
+   of them can be read.  `labels_cfg` is the code (lr_fixed = false: pinned tree, no code implements it
+   any more; true: current tree), `labels_spec_cfg` the property (only read failures end the stream
+   early).  The four statements below are about the request MODEL and are near-definitional (they unfold
+   `labels_cfg`, which is defined to treat a bare frame as a fault; c13_labels_fixed is `if true`): that
+   the code behaves like `labels_cfg` is the harness's evidence (check_request, witness replay).  The
+   lr_fixed = false ones document the historic defect and keep the check able to report a regression. *)
 Theorem c13_labels_full_refuted : exists r, lr_fault r = None /\
   delivered (labels_spec_cfg r) = [0; 1; 2] /\ delivered (labels_cfg r) = [0].
 Proof. exact labels_full_refuted. Qed.
@@ -406,6 +550,12 @@ Theorem c13_labels_partial : forall r, bare_frame_selector r = false ->
   delivered (labels_cfg r) = delivered (labels_spec_cfg r).
 Proof. exact labels_partial. Qed.
 Print Assumptions c13_labels_partial.
+
+Example ex_labels_partial :
+  bare_frame_selector (mkLReq 3 2 1 (Some 1) true (Some 1) false) = false /\
+  delivered (labels_cfg (mkLReq 3 2 1 (Some 1) true (Some 1) false)) = [0] /\
+  delivered (labels_spec_cfg (mkLReq 3 2 1 (Some 1) true (Some 1) false)) = [0].
+Proof. exact ex_labels_outside_selector. Qed.
 
 Theorem c13_labels_fixed : forall r, lr_fixed r = true -> labels_cfg r = labels_spec_cfg r.
 Proof. exact labels_fixed. Qed.
@@ -423,6 +573,12 @@ Example ex_reader_requests :
   delivered (video_cfg (mkVReq 5 (Some 0) None 1 1 None)) = [0;1;2;3;4] /\
   delivered (video_cfg (mkVReq 5 (Some 2) (Some 4) 1 1 None)) = [2;3] /\
   video_total_len (mkVReq 5 (Some 4) (Some 2) 1 1 None) = (0, 2) /\
+  (* a range that runs past the end of a 3-frame video: frames 0..2, total_len() = 5 *)
+  delivered (video_cfg (mkVReq 3 None (Some 5) 1 1 None)) = [0;1;2] /\
+  video_total_len (mkVReq 3 None (Some 5) 1 1 None) = (5, 0) /\
+  delivered (video_cfg (mkVReq 3 (Some 4) (Some 6) 1 1 None)) = [] /\
+  delivered (video_cfg (mkVReq 3 (Some 1) (Some 6) 1 1 (Some 0))) = [1;2] /\
+  delivered (video_cfg (mkVReq 3 (Some 1) (Some 6) 1 1 (Some 2))) = [1] /\
   bare_frame_selector bare_witness = true /\
   bare_frame_selector (mkLReq 3 2 1 (Some 1) true (Some 1) false) = false /\
   bare_frame_selector (mkLReq 3 2 1 None false (Some 1) false) = false.
@@ -435,7 +591,7 @@ Proof. exact ex_requests. Qed.
    reachable.  So when the inference callable raises, the (non-daemon) reader thread waits for ever.
    The property speaks about READ failures only; this is recorded, not reported. *)
 Theorem c13_blocked_reader_needs_get : forall c l s s',
-  lstep c l s s' -> ((exists i, pp s = PPut i) \/ pp s = PSent) -> full c (q s) = true ->
+  lstep c l s s' -> ((exists i p, pp s = PPut i p) \/ pp s = PSent) -> full c (q s) = true ->
   pp s' = pp s /\ (q s' = q s \/ exists x, taken s' = taken s ++ [x]).
 Proof. exact blocked_reader_needs_get. Qed.
 Print Assumptions c13_blocked_reader_needs_get.
